@@ -627,6 +627,78 @@ def analysis_corruptions(a):
     return out
 
 
+# ------------------------------------------------------------------ cumulant function / error transfer matrix / options of infidelity
+def cumulant_c(q):
+    return '(Build_cumulant_d %s %s %s %s %s %s %s)' % (analysis_c(q['a']), B(q['have_spectrum']), B(q['have_omega']), B(q['second_order']),
+                                                         B(q['decay_given']), B(q['shifts_given']), B(q['shifts_shape_ok']))
+
+
+def real_cumulant(q):
+    a = q['a']
+    p = real_pulse(a['pulse'])
+    S = real_spectrum(a['spectrum']) if q['have_spectrum'] else None
+    om = real_omega(a) if q['have_omega'] else None
+    n = 2 if a['ids'] is None else len(a['ids'])
+    shape = (n, n, 4, 4) if len(a['spectrum']['shape']) == 3 else (n, 4, 4)
+    if a['which'] == 'correlations':
+        shape = (2, 2) + shape
+    decay = np.ones(shape) if q['decay_given'] else None
+    shifts = (np.ones(shape if q['shifts_shape_ok'] else shape[:-1] + (3,))) if q['shifts_given'] else None
+    return lambda: numeric.calculate_cumulant_function(p, S, om, n_oper_identifiers=a['ids'], which=a['which'], second_order=q['second_order'],
+                                                       decay_amplitudes=decay, frequency_shifts=shifts)
+
+
+def cumulant_cases(a):
+    base = dict(a=a, have_spectrum=True, have_omega=True, second_order=False, decay_given=False, shifts_given=False, shifts_shape_ok=True)
+    out = [('valid', (), base)]
+    out.append(('nothing-given', ('ValueError',), dict(base, have_spectrum=False, have_omega=False)))
+    out.append(('precomputed-decay-amplitudes', (), dict(base, have_spectrum=False, have_omega=False, decay_given=True)))
+    out.append(('second-order-without-shifts', ('ValueError',), dict(base, have_spectrum=False, have_omega=False, decay_given=True, second_order=True)))
+    out.append(('precomputed-both', () if a['which'] == 'total' else ('ValueError',),
+                dict(base, have_spectrum=False, have_omega=False, decay_given=True, second_order=True, shifts_given=True)))
+    out.append(('shifts-shape', ('ValueError',), dict(base, have_spectrum=False, have_omega=False, decay_given=True, second_order=True,
+                                                       shifts_given=True, shifts_shape_ok=False)))
+    if a['which'] == 'total' and len(a['spectrum']['shape']) < 3:
+        out.append(('second-order', (), dict(base, second_order=True)))
+    out.append(('correlations-second-order', ('ValueError',), dict(base, a=dict(a, which='correlations'), second_order=True)))
+    out.append(('unknown-option', ('ValueError',), dict(base, a=dict(a, which='foo'))))
+    return out
+
+
+def etm_cases(a):
+    qb = dict(a=dict(a, which='total'), have_spectrum=True, have_omega=True, second_order=False, decay_given=False, shifts_given=False, shifts_shape_ok=True)
+    p = real_pulse(a['pulse'])
+    S, om = real_spectrum(a['spectrum']), real_omega(a)
+    out = []
+
+    def lit(cum, have_pulse, q):
+        return 'validate_etm (Build_etm_d %s %s %s)' % (cum, B(have_pulse), cumulant_c(q))
+    out.append(('valid', lit('KNone', True, qb), lambda: numeric.error_transfer_matrix(p, S, om, n_oper_identifiers=a['ids']), ()))
+    out.append(('nothing-given', lit('KNone', False, dict(qb, have_spectrum=False, have_omega=False)), lambda: numeric.error_transfer_matrix(), ('ValueError',)))
+    out.append(('no-pulse', lit('KNone', False, qb), lambda: numeric.error_transfer_matrix(None, S, om), ('ValueError',)))
+    out.append(('no-omega', lit('KNone', True, dict(qb, have_omega=False)), lambda: numeric.error_transfer_matrix(p, S, None), ('ValueError',)))
+    out.append(('cumulant-given', lit('(KArray %s)' % nats([2, 4, 4]), False, qb), lambda: numeric.error_transfer_matrix(cumulant_function=np.zeros((2, 4, 4))), ()))
+    out.append(('cumulant-2d', lit('(KArray %s)' % nats([4, 4]), False, qb), lambda: numeric.error_transfer_matrix(cumulant_function=np.zeros((4, 4))), ()))
+    out.append(('cumulant-not-array', lit('KNotArray', False, qb), lambda: numeric.error_transfer_matrix(cumulant_function=[[1.0, 0.0], [0.0, 1.0]]), ('TypeError',)))
+    out.append(('cumulant-not-square', lit('(KArray %s)' % nats([2, 4, 3]), False, qb), lambda: numeric.error_transfer_matrix(cumulant_function=np.zeros((2, 4, 3))), ('ValueError',)))
+    out.append(('cumulant-1d', lit('(KArray %s)' % nats([4]), False, qb), lambda: numeric.error_transfer_matrix(cumulant_function=np.zeros(4)), ('ValueError',)))
+    return out
+
+
+def infidelity_option_cases(a):
+    """return_smallness and test_convergence"""
+    out = []
+    sh = a['spectrum']['shape']
+    out.append(('smallness', dict(a, smallness=True, which='total'), () if len(sh) <= 2 else ('NotImplementedError',)))
+    conv = dict(a, which='total', test_conv=True, omega_isdict=True, spacing='linear', spectrum=dict(kind='ACallable', shape=[1], herm=True))
+    out.append(('convergence-valid', conv, ()))
+    out.append(('convergence-log', dict(conv, spacing='log'), ()))
+    out.append(('convergence-spacing', dict(conv, spacing='foo'), ('ValueError',)))
+    out.append(('convergence-spectrum-not-callable', dict(conv, spectrum=dict(kind='ANdarray', shape=[a['omega_len']], herm=True)), ('TypeError',)))
+    out.append(('convergence-omega-not-dict', dict(conv, omega_isdict=False), ('TypeError',)))
+    return out
+
+
 # ------------------------------------------------------------------ small entry points
 def small_cases(r):
     """(name, coq model verdict expression, callable, documented classes)"""
@@ -781,6 +853,14 @@ def collect_cases(ctx, thorough):
             col.case(fn, 'valid', '%s %s' % (val, analysis_c(a)), real_analysis(a, fn), (), a)
             for nm, doc, c, sig in analysis_corruptions(a):
                 col.case(fn, nm, '%s %s' % (val, analysis_c(c)), real_analysis(c, fn), doc, c, sig)
+    for b in range(8 if thorough else 4):
+        a = gen_analysis(r, k=b)
+        for nm, doc, q in cumulant_cases(a):
+            col.case('cumulant', nm, 'validate_cumulant %s' % cumulant_c(q), real_cumulant(q), doc, q)
+        for nm, lit, call, doc in etm_cases(a):
+            col.case('error-transfer-matrix', nm, lit, call, doc, dict(expr=lit))
+        for nm, c, doc in infidelity_option_cases(a):
+            col.case('infidelity', nm, 'validate_infidelity %s' % analysis_c(c), real_analysis(c, 'infidelity'), doc, c)
     for nm, lit, call, doc in small_cases(r):
         col.case('misc', nm, lit, call, doc, dict(expr=lit))
     return col
